@@ -95,3 +95,22 @@ Theorem C08_faulty_full_round : forall ms q, q_cur q = None -> all_accepting (q_
   r_rr (q_base (snd (req_cycles q ms))) = r_rr (q_base q).
 Proof. exact req_full_round. Qed.
 Print Assumptions C08_faulty_full_round.
+
+(** over connections that accept every write, [req_send] does what the socket model's REQ send does *)
+From ZV Require Import Proofs.SendRefinement.
+Theorem C08_faulty_refines_world : forall w q m,
+  World.w_type w = REQ -> req_agrees w q -> lenN (encode_frames (World.req_wrap m)) < 2 ^ 63 ->
+  let '(bs, w') := World.step w (World.OSend m) in
+  let '(r, q') := req_send q m in
+  req_agrees w' q' /\
+  match r with
+  | QSent k => bs = [World.BSendOk] /\
+               wire_w k w' = wire_w k w ++ encode_frames (World.req_wrap m) /\
+               wire_of k (q_base q') = wire_of k (q_base q) ++ encode_frames (World.req_wrap m) /\
+               (forall j, j <> k -> wire_w j w' = wire_w j w /\ wire_of j (q_base q') = wire_of j (q_base q))
+  | QBusy | QNoPeer => bs = [World.BSendErr EReturnToSender (Some m)] /\
+               (forall j, wire_w j w' = wire_w j w /\ wire_of j (q_base q') = wire_of j (q_base q))
+  | _ => False
+  end.
+Proof. exact req_refines_world. Qed.
+Print Assumptions C08_faulty_refines_world.
